@@ -388,6 +388,69 @@ def loops_in(sf, item):
     return out
 
 
+_ASSIGN_OPS = {"+", "-", "*", "/", "%", "|", "&", "^"}
+
+
+def loop_carried(src):
+    """Names of local variables that are ASSIGNED inside a loop body (`x = e`, `x += e`, ...) but declared outside of it:
+    the loop-carried state of a piece of Rust text (fn item). Field assignments (`a.b = e`) and `let` declarations
+    inside the loop are not counted. Used by vf/run.py: a loop-carried variable that the verified tree did not have is
+    not constrained by any invariant of the template (Verus infers none), so a failed obligation of that function is
+    "needs invariant", not a violation. Heuristic on tokens."""
+    try:
+        ct = code_tokens(lex(src))
+    except LexError:
+        return []
+    n = len(ct)
+    out = set()
+    k = 0
+    while k < n:
+        t = ct[k]
+        if t.kind == "ident" and t.text in LOOP_KW and not (t.text == "for" and k + 1 < n and ct[k + 1].text == "<"):
+            j = k + 1
+            while j < n:
+                tj = ct[j]
+                if tj.kind == "punct" and tj.text in ("(", "["):
+                    try:
+                        j = match_close(ct, j) + 1
+                    except LexError:
+                        j = n
+                    continue
+                if tj.kind == "punct" and tj.text == "{":
+                    break
+                j += 1
+            if j >= n:
+                break
+            try:
+                e = match_close(ct, j)
+            except LexError:
+                break
+            declared = set()
+            assigned = set()
+            i = j + 1
+            while i < e:
+                x = ct[i]
+                if x.kind == "ident" and x.text == "let":
+                    m = i + 1
+                    while m < e and ct[m].kind == "ident" and ct[m].text in ("mut", "ref", "ghost", "tracked"):
+                        m += 1
+                    if m < e and ct[m].kind == "ident":
+                        declared.add(ct[m].text)
+                elif x.kind == "ident" and i + 1 < e and ct[i - 1].text not in (".", "let", "mut", "ref", ":", "'"):
+                    a = ct[i + 1]
+                    if a.kind == "punct" and a.text == "=":
+                        nx = ct[i + 2] if i + 2 <= e else None
+                        if not (nx is not None and nx.kind == "punct" and nx.text in ("=", ">") and nx.start == a.end):
+                            assigned.add(x.text)
+                    elif a.kind == "punct" and a.text in _ASSIGN_OPS and i + 2 < e and ct[i + 2].text == "=" \
+                            and ct[i + 2].start == a.end and not (i + 3 <= e and ct[i + 3].text == "=" and ct[i + 3].start == ct[i + 2].end):
+                        assigned.add(x.text)
+                i += 1
+            out |= (assigned - declared)
+        k += 1
+    return sorted(out)
+
+
 _CLOSURE_PREV = {"(", ",", "=", "{", ";", "[", "move", "return", "else", "in"}
 
 
